@@ -22,6 +22,13 @@ CLAIMS = {
             "other sequence numbers and forged all-padding plaintexts; live connections behind the proxy show that duplicated, swapped, dropped or altered application records are refused.",
             "Trusted: TLC, reference primitive tables, harness drivers. Identity over all lengths is observed through the library's own protect+unprotect with bytes compared by the driver.",
             "4/C11"),
+    "C06": ("exploration",
+            "TLC model checking of Wire.tla (the TLV reader on every byte string to the bound; the variant without one length check must violate) + conformance of the real reader against it (WireJudge.tla) + TLC-enumerated edit programs "
+            "(Mutate.tla) applied to library-made seed objects and live handshake records, run through every consumer under AddressSanitizer/UBSan",
+            "132 seed objects (every decoder family x variants) x all single edit programs (tree edits with and without length repair, byte edits, TLS vector-tree edits, repetitions), all prefixes, byte overwrites; both peers of the three "
+            "handshakes with record-level edit programs at every record position. Memory errors are observed by the sanitizers with exact-size input and output allocations; termination by an alarm.",
+            "Trusted: ASan/UBSan as observers, TLC, tools/mutlib.py. Not a proof of memory safety: coverage is the enumerated grammar. Mutants made slow by a huge PBKDF2 iteration count are counted, not reported.",
+            "4/C06 and 0.2.1"),
     "C07": ("model_checking",
             "TLC model checking of Chain.tla (ghost variables sound/must vs the path walk, full attribute product, negative config) + replay of TLC-judged chains into x509_certs_verify(_tlcp)",
             "TLC covers every chain of leaf [+TLCP encryption leaf] + intermediates + anchor over the attribute product while visiting a few hundred abstract states, proving accept => sound and reject => ~must for the "
